@@ -712,6 +712,11 @@ def assemble(unit_path, repo=REPO):
                 sig = pref.sub('', sig)
                 body = pref.sub('', body)
                 rw.note('crate::<module>:: path prefix dropped (single-file unit)', n_pref)
+            sup = re.compile(r'(?<![A-Za-z0-9_:])(?:super::)+(?:(?:swift_utils|field_utils|utils|errors|traits)::)?')
+            n_sup = len(sup.findall(body))
+            if n_sup:
+                body = sup.sub('', body)
+                rw.note('super::[module::] path prefix dropped (single-file unit)', n_sup)
             n_cr = len(re.findall(r'crate::Result<', sig + body))
             if n_cr:
                 sig = sig.replace('crate::Result<', 'crate::cr::Result<')
